@@ -49,6 +49,12 @@ Check c09_accepted_line_ends_at_first_crlf : forall i a after r v u,
   split_crlf i = Some (a, after) -> ends_brace a = false -> parse i = ROk r v u -> r = after /\ u = nlen a + 2.
 Print Assumptions c09_accepted_line_ends_at_first_crlf.
 
+(* and with or without literals: whatever the parser accepts ends with CR LF (so a frame never ends inside a line) *)
+Theorem c09_accepted_response_ends_with_crlf : forall i r v u, parse i = ROk r v u -> exists w0, i = w0 ++ 13 :: 10 :: r.
+Proof. exact accepted_response_ends_with_crlf_lemma. Qed.
+Check c09_accepted_response_ends_with_crlf : forall i r v u, parse i = ROk r v u -> exists w0, i = w0 ++ 13 :: 10 :: r.
+Print Assumptions c09_accepted_response_ends_with_crlf.
+
 (* the generic theorem, for any grammar in strict tail form and any actions *)
 Theorem c09_generic_first_crlf : forall (natf : string -> list val -> ares) (env : N -> option G) (bound : nat) (is_tail : N -> bool),
   (forall f g, env f = Some g -> if is_tail f then stail is_tail g = true else all_nodes (node_inner is_tail) g = true) ->
